@@ -9,6 +9,7 @@ replay   : every history is driven through a real QueryPlanner for statements wi
            must equal the plan of the same text with v_i written in place of the i-th `?` (compared through the
            generic plan projection).
 """
+import copy
 import json
 import random
 import re
@@ -67,6 +68,81 @@ ALL_SLOT_EXPRS = [
     '(? = ?) and not (? > ?) or ? < ?', '? like ? or ? not like ?', 'a -> ? ->> ?', 'not (? in (?, ?) and ? between ? and ?)',
     'count(distinct ?) + sum(?)', 'sum(?) over (partition by ?, ? order by ?, ?)', '(?, ?) = (?, ?)', '? || ? || ?',
 ]
+# placeholders in SEVERAL clauses of one select at a time (every pair of clauses, and all of them)
+def multi_clause_statements():
+    import itertools
+    parts = [('targets', 'select substr(a, 1, {P}) as s, c'), ('where', ' where b = {P}'), ('group', ' group by c, substr(a, 1, {P})'),
+             ('having', ' having count(*) > {P}'), ('order', ' order by c, substr(a, 2, {P})'), ('limit', ' limit 5')]
+    out = []
+    names = ['targets', 'where', 'group', 'having', 'order']
+    for r in (2, 3, 5):
+        for combo in itertools.combinations(names, r):
+            sql = ''
+            for n_, txt in parts:
+                if n_ == 'targets':
+                    sql += txt.replace('{P}', '?' if n_ in combo else '1') + ' from int1.t'
+                elif n_ == 'limit':
+                    sql += txt
+                else:
+                    sql += txt.replace('{P}', '?' if n_ in combo else '1')
+            out.append(sql)
+            out.append('select * from (%s) as q where q.c = ?' % sql)
+    return out
+
+
+def _container_variants(tree):
+    """Hand-built spellings of the same tree: every list a tuple; equal rows of an INSERT the SAME list object."""
+    from .project import walk_objects
+    out = []
+    t1 = copy.deepcopy(tree)
+    changed = [0]
+
+    def tup(o, path):
+        d = getattr(o, '__dict__', None)
+        if d and type(o).__module__.startswith('mindsdb_sql'):
+            for k, v in list(d.items()):
+                if isinstance(v, list) and v and k in ('values', 'items', 'group_by', 'order_by', 'partition', 'args'):
+                    if k == 'values':
+                        d[k] = [tuple(r) if isinstance(r, list) else r for r in v]
+                    else:
+                        d[k] = tuple(v)
+                    changed[0] += 1
+    walk_objects(t1, tup)
+    if changed[0]:
+        out.append(('tuples', t1))
+    if type(tree).__name__ == 'Insert' and tree.values and len(tree.values) > 1:
+        rows = tree.values
+        if all(len(r) == len(rows[0]) and all(type(x).__name__ == 'Parameter' for x in r) for r in rows):
+            t2 = copy.deepcopy(tree)
+            t2.values = [[t2.values[0][0]] * len(rows[0])] * len(rows)
+            out.append(('shared-rows', t2))
+    return out
+
+
+def _handbuilt(sql):
+    """prepare / info / execute on hand-built spellings of the tree of `sql`; the plan must be the inlined text's plan."""
+    from mindsdb_sql import parse_sql
+    from mindsdb_sql.exceptions import PlanningException
+    from .project import plan_proj, jdump
+    res = []
+    n = count_holes(sql)
+    vals = list(range(101, 101 + n))
+    want = _plan_of_text(inline(sql, vals))
+    for name, tree in _container_variants(parse_sql(sql, 'mindsdb')):
+        try:
+            pl = _planner()
+            _drain(pl.prepare_steps(tree))
+            cnt = len(pl.get_statement_info()['parameters'])
+            steps = list(pl.execute_steps(list(vals)) or [])
+            got = 'plan:' + jdump({'steps': plan_proj(type('P', (), {'steps': steps})())['steps']})
+            res.append((name, cnt, 'same' if got == want else 'other-plan', got[:300], want[:300]))
+        except (PlanningException, NotImplementedError) as e:
+            res.append((name, -1, 'refused:%s' % type(e).__name__, str(e)[:100], ''))
+        except Exception as e:   # noqa
+            res.append((name, -1, 'internal:%s' % type(e).__name__, str(e)[:100], ''))
+    return res
+
+
 ALL_SLOT_CLAUSES = [
     'select {E} from int1.t', 'select {E} as x, {E} as y from int1.t where b = ?', 'select a from int1.t where {E}',
     'select a from int1.t where ? = ({E}) and c = ?', 'select a from int1.t group by a having {E}',
@@ -217,6 +293,9 @@ def run(ctx):
             gen.append(sql)
             n_all += 1
     ctx.cov['all_slot_statements'] = n_all
+    mc = multi_clause_statements()
+    gen += mc
+    ctx.cov['multi_clause_statements'] = len(mc)
     if n_all < len(ALL_SLOT_EXPRS) * 3:
         raise MachineryError('most all-slot statements are rejected by the parser (%d accepted)' % n_all)
     numbering = STATEMENTS + gen
@@ -289,6 +368,26 @@ def run(ctx):
                 ctx.violation('protocol:%s-when-%s:%s' % (act, st, o),
                               'outcome %s is not among the outcomes the protocol allows %s' % (o, sorted(allowed)),
                               {'statement': cur, 'history': hist_s, 'detail': detail})
+    # ---- hand-built spellings of the trees (tuples instead of lists, one list object used for several rows)
+    hb_sql = [q for q in STATEMENTS if not order_bad.get(q)] + [
+        'insert into int1.t (a, b) values (?, ?), (?, ?), (?, ?)', 'insert into int1.t (a) values (?), (?)',
+        'select a from int1.t where b in (?, ?, ?) group by a, c having count(*) > ? order by a, c']
+    n_hb = 0
+    for sql_, rs in zip(hb_sql, pmap(_handbuilt, hb_sql, chunksize=4)):
+        for name, cnt, st, got, want in rs:
+            n_hb += 1
+            if st.startswith('refused'):
+                continue
+            if st.startswith('internal'):
+                ctx.violation('handbuilt:%s:%s' % (name, st), 'prepare/execute of a hand-built tree (%s) ends in an internal error: %s' % (name, got),
+                              {'statement': sql_, 'variant': name})
+            elif cnt != count_holes(sql_):
+                ctx.violation('handbuilt:%s:parameter-count' % name, 'prepare reports %d parameters for %d placeholders' % (cnt, count_holes(sql_)),
+                              {'statement': sql_, 'variant': name})
+            elif st != 'same':
+                ctx.violation('handbuilt:%s:binding' % name, 'executing a hand-built tree with v1..vn does not plan like the text with vi in '
+                              'place of the i-th placeholder', {'statement': sql_, 'variant': name, 'got': got, 'want': want})
+    ctx.cov['handbuilt_tree_runs'] = n_hb
     ctx.cov['traces_validated_against_impl'] = len(work) + len(traces)
     ctx.cov['evaluations'] = n_act
     ctx.cov['statements'] = len(STATEMENTS)
